@@ -1,0 +1,12 @@
+//go:build verif
+
+package raftconn
+
+// VerifIsLeader reports whether this raft node currently believes to be the leader of
+// its replica group (verification harness only).
+func (n *RaftNode) VerifIsLeader() bool {
+	if n == nil || n.node == nil {
+		return false
+	}
+	return n.isLeader()
+}
